@@ -14,6 +14,14 @@ so every module is brought to one spelling before anything else looks at it:
  N10 [E for v in (a, b)] -> [E[a/v], E[b/v]];  t1, t2 = (E for v in (a, b)) -> t1, t2 = (E[a/v], E[b/v]);  C == x -> x == C for constants C;
  N11 a local bound once, unconditionally, to a literal dict of references and only read afterwards is replaced by the literal (then N4 applies);
  N14 tests are brought to negation normal form (De Morgan; not (a is None) -> a is not None; ordering comparisons untouched);
+ N0  a private function of the pinned tree that was renamed (same body, or the only new function with the same parameters in its
+     class/module) is mapped back to its pinned name everywhere in the package;
+ N1b new class-level constants (`Fxp._MSG = '...'`) are substituted at `self._MSG` / `Fxp._MSG`; N2b a reference to a nested one-expression
+     def is the lambda it denotes;
+ N17 isinstance(x, A) or isinstance(x, B) -> isinstance(x, (A, B)); N18 dict(a=1) -> {'a': 1}; N19 getattr(o, 'name') -> o.name;
+ N20 operator.lt(a, b) -> a < b (and the other operator-module functions); N21 functools.partial(F, ...) -> the lambda it denotes;
+ N16 assignment expressions (walrus) in an if-test or a simple statement become assignment statements in front of it;
+ N15 while-loops that spell a for-loop (iter/next with try-except StopIteration; walrus with a sentinel; index loop over len(S)) -> for;
  N12 L = []; for v in IT: L.append(E)  ->  L = [E for v in IT];
  N8  X.update(k1=v1, k2=v2) / X.update({'k1': v1}) as a statement -> X['k1'] = v1; X['k2'] = v2;
      f(**dict(kw, a=b)) -> kw['a'] = b is NOT done (it would change kw); dict(kw, a=b) is left to the rules.
@@ -136,21 +144,122 @@ def simple_helpers(tree, mod, pinned_funcs):
     return out
 
 
-class _Inline(ast.NodeTransformer):
-    """N1 + N2, scope aware"""
+def class_constants(tree, pinned_class_attrs):
+    """{class name: {attr: value}} for class-level names that are new, bound once to a pure expression and never assigned elsewhere"""
+    out = {}
+    stored = set()
+    for n in ast.walk(tree):
+        if isinstance(n, ast.Attribute) and isinstance(n.ctx, (ast.Store, ast.Del)):
+            stored.add(n.attr)
+        elif isinstance(n, ast.Call) and isinstance(n.func, ast.Name) and n.func.id in ("setattr", "delattr") and len(n.args) >= 2 and isinstance(n.args[1], ast.Constant):
+            stored.add(n.args[1].value)
+    for st in tree.body:
+        if not isinstance(st, ast.ClassDef):
+            continue
+        count = {}
+        cand = {}
+        for s2 in st.body:
+            if isinstance(s2, ast.Assign):
+                for t in s2.targets:
+                    for x in ast.walk(t):
+                        if isinstance(x, ast.Name):
+                            count[x.id] = count.get(x.id, 0) + 1
+                if len(s2.targets) == 1 and isinstance(s2.targets[0], ast.Name):
+                    cand[s2.targets[0].id] = s2.value
+        methods = {s2.name for s2 in st.body if isinstance(s2, (ast.FunctionDef, ast.AsyncFunctionDef))}
+        for name, val in cand.items():
+            if name in pinned_class_attrs or name in stored or name in methods or count.get(name) != 1 or name.startswith("__"):
+                continue
+            if isinstance(val, ast.Name) and val.id in methods:
+                continue                                   # alias of a method (__radd__ = __add__)
+            if _pure(val, {}) and not any(isinstance(x, ast.Name) and x.id in cand for x in ast.walk(val)):
+                out.setdefault(st.name, {})[name] = val
+    return out
 
-    def __init__(self, consts, helpers):
+
+def _nested_simple_defs(fn):
+    """{name: FunctionDef} for one-expression defs written directly in fn (any block depth, not inside another def / lambda / class)"""
+    out = {}
+    dup = set()
+
+    def walk(stmts):
+        for st in stmts:
+            if isinstance(st, (ast.FunctionDef, ast.AsyncFunctionDef)):
+                if isinstance(st, ast.FunctionDef) and not st.decorator_list:
+                    body = [s for s in st.body if not (isinstance(s, ast.Expr) and isinstance(s.value, ast.Constant))]
+                    a = st.args
+                    if len(body) == 1 and isinstance(body[0], ast.Return) and body[0].value is not None and not a.defaults and not a.vararg and not a.kwarg \
+                            and not a.kwonlyargs and not a.posonlyargs and not a.kw_defaults:
+                        if st.name in out:
+                            dup.add(st.name)
+                        out[st.name] = st
+                        continue
+                dup.add(st.name)
+                continue
+            if isinstance(st, ast.ClassDef):
+                continue
+            for fld in ("body", "orelse", "finalbody"):
+                v = getattr(st, fld, None)
+                if isinstance(v, list):
+                    walk(v)
+            for h in getattr(st, "handlers", []) or []:
+                walk(h.body)
+    walk(fn.body)
+    # a name that is also assigned otherwise in fn is not a plain def
+    for n in ast.walk(fn):
+        if isinstance(n, ast.Name) and isinstance(n.ctx, ast.Store) and n.id in out:
+            dup.add(n.id)
+    return {k: v for k, v in out.items() if k not in dup}
+
+
+class _Inline(ast.NodeTransformer):
+    """N1 + N1b + N2 + N2b, scope aware"""
+
+    def __init__(self, consts, helpers, cls_consts=None):
         self.consts, self.helpers = consts, helpers
+        self.cls_consts = cls_consts or {}
+        self.cls = []
+        self.nested = []
         self.shadow = []
         self.call_funcs = set()
         self.n = 0
+
+    def visit_ClassDef(self, node):
+        self.cls.append(node.name)
+        self.generic_visit(node)
+        self.cls.pop()
+        return node
+
+    def visit_Attribute(self, node):
+        self.generic_visit(node)
+        if isinstance(node.ctx, ast.Load) and self.shadow:
+            base = _dotted(node.value)
+            src_cls = None
+            if base == "self" and self.cls:
+                src_cls = self.cls[-1]
+            elif base in self.cls_consts:
+                src_cls = base
+            elif base in ("self.__class__", "type(self)") and self.cls:
+                src_cls = self.cls[-1]
+            elif isinstance(node.value, ast.Call) and isinstance(node.value.func, ast.Name) and node.value.func.id == "type" and len(node.value.args) == 1 \
+                    and _dotted(node.value.args[0]) == "self" and self.cls:
+                src_cls = self.cls[-1]
+            if src_cls and node.attr in self.cls_consts.get(src_cls, {}):
+                self.n += 1
+                new = copy.deepcopy(self.cls_consts[src_cls][node.attr])
+                for x in ast.walk(new):
+                    ast.copy_location(x, node)
+                return new
+        return node
 
     def _shadowed(self, name):
         return any(name in s for s in self.shadow)
 
     def _scope(self, node):
         self.shadow.append(_function_locals(node))
+        self.nested.append(_nested_simple_defs(node) if isinstance(node, (ast.FunctionDef, ast.AsyncFunctionDef)) else {})
         self.generic_visit(node)
+        self.nested.pop()
         self.shadow.pop()
         return node
 
@@ -165,6 +274,16 @@ class _Inline(ast.NodeTransformer):
         return node
 
     def visit_Name(self, node):
+        if isinstance(node.ctx, ast.Load) and id(node) not in self.call_funcs and self.nested and node.id in self.nested[-1] \
+                and not any(node.id in s for s in self.shadow[:-1]):
+            # N2b: a reference (not a call) to a nested one-expression def is the lambda it denotes
+            fn = self.nested[-1][node.id]
+            body = [s for s in fn.body if isinstance(s, ast.Return)][0].value
+            self.n += 1
+            lam = ast.Lambda(args=copy.deepcopy(fn.args), body=copy.deepcopy(body))
+            for x in ast.walk(lam):
+                ast.copy_location(x, node)
+            return lam
         if not isinstance(node.ctx, ast.Load) or self._shadowed(node.id):
             return node
         if node.id in self.consts and self.shadow:          # uses inside functions only: the module-level binding itself stays
@@ -213,8 +332,45 @@ def _nnf(t, neg=False):
     return t
 
 
+_CMP_OPS = {"lt": ast.Lt, "le": ast.LtE, "eq": ast.Eq, "ne": ast.NotEq, "gt": ast.Gt, "ge": ast.GtE, "is_": ast.Is, "is_not": ast.IsNot}
+_BIN_OPS = {"add": ast.Add, "sub": ast.Sub, "mul": ast.Mult, "truediv": ast.Div, "floordiv": ast.FloorDiv, "mod": ast.Mod, "pow": ast.Pow,
+            "lshift": ast.LShift, "rshift": ast.RShift, "and_": ast.BitAnd, "or_": ast.BitOr, "xor": ast.BitXor, "matmul": ast.MatMult}
+_UN_OPS = {"neg": ast.USub, "pos": ast.UAdd, "invert": ast.Invert, "inv": ast.Invert, "not_": ast.Not}
+
+
+def _is_isinstance(v):
+    return isinstance(v, ast.Call) and isinstance(v.func, ast.Name) and v.func.id == "isinstance" and len(v.args) == 2 and not v.keywords
+
+
+def _type_elts(t):
+    return list(t.elts) if isinstance(t, ast.Tuple) else [t]
+
+
+def _import_aliases(tree, module):
+    """local names under which `module` is imported in this file"""
+    out = set()
+    for n in ast.walk(tree):
+        if isinstance(n, ast.Import):
+            for al in n.names:
+                if al.name == module:
+                    out.add(al.asname or al.name)
+    return out
+
+
+def _from_import_aliases(tree, module, name):
+    out = set()
+    for n in ast.walk(tree):
+        if isinstance(n, ast.ImportFrom) and n.module == module:
+            for al in n.names:
+                if al.name == name:
+                    out.add(al.asname or al.name)
+    return out
+
+
 class _Canon(ast.NodeTransformer):
-    """N3, N4a, N5, N6, N14 (expression level)"""
+    """N3, N4a, N5, N6, N14, N17-N21 (expression level)"""
+    operator_aliases = frozenset()
+    partial_names = frozenset()
 
     def _test(self, node):
         self.generic_visit(node)
@@ -260,6 +416,51 @@ class _Canon(ast.NodeTransformer):
         self.generic_visit(node)
         if isinstance(node.func, ast.Name) and node.func.id == "list" and len(node.args) == 1 and not node.keywords and isinstance(node.args[0], ast.GeneratorExp):
             return self._map(node.args[0], node)
+        # N18: dict(a=1, b=2) -> {'a': 1, 'b': 2}
+        if isinstance(node.func, ast.Name) and node.func.id == "dict" and not node.args and node.keywords and all(k.arg is not None for k in node.keywords):
+            return ast.copy_location(ast.Dict(keys=[ast.copy_location(ast.Constant(value=k.arg), node) for k in node.keywords], values=[k.value for k in node.keywords]), node)
+        # N19: getattr(obj, 'name') -> obj.name
+        if isinstance(node.func, ast.Name) and node.func.id == "getattr" and len(node.args) == 2 and not node.keywords and isinstance(node.args[1], ast.Constant) \
+                and isinstance(node.args[1].value, str) and node.args[1].value.isidentifier():
+            return ast.copy_location(ast.Attribute(value=node.args[0], attr=node.args[1].value, ctx=ast.Load()), node)
+        # N20: operator.lt(a, b) -> a < b ...
+        d = _dotted(node.func)
+        if d and "." in d and d.split(".")[0] in self.operator_aliases and not node.keywords:
+            fn = d.split(".", 1)[1]
+            if fn in _CMP_OPS and len(node.args) == 2:
+                return ast.copy_location(ast.Compare(left=node.args[0], ops=[_CMP_OPS[fn]()], comparators=[node.args[1]]), node)
+            if fn in _BIN_OPS and len(node.args) == 2:
+                return ast.copy_location(ast.BinOp(left=node.args[0], op=_BIN_OPS[fn](), right=node.args[1]), node)
+            if fn in _UN_OPS and len(node.args) == 1:
+                return ast.copy_location(ast.UnaryOp(op=_UN_OPS[fn](), operand=node.args[0]), node)
+        # N21: functools.partial(F, a, k=v)  ->  lambda *args, **kw: F(a, *args, k=v, **kw)   (reduced when applied)
+        if d in self.partial_names and node.args:
+            call = ast.Call(func=node.args[0], args=list(node.args[1:]) + [ast.Starred(value=ast.Name(id="_pargs", ctx=ast.Load()), ctx=ast.Load())],
+                            keywords=list(node.keywords) + [ast.keyword(arg=None, value=ast.Name(id="_pkw", ctx=ast.Load()))])
+            lam = ast.Lambda(args=ast.arguments(posonlyargs=[], args=[], vararg=ast.arg(arg="_pargs"), kwonlyargs=[], kw_defaults=[], kwarg=ast.arg(arg="_pkw"), defaults=[]), body=call)
+            for x in ast.walk(lam):
+                if not hasattr(x, "lineno"):
+                    ast.copy_location(x, node)
+            lam._partial = True
+            return ast.copy_location(lam, node)
+        return node
+
+    def visit_BoolOp(self, node):
+        self.generic_visit(node)
+        # N17: isinstance(x, A) or isinstance(x, B) -> isinstance(x, (A, B))   (adjacent operands, same subject)
+        if isinstance(node.op, ast.Or):
+            vals = []
+            for v in node.values:
+                if vals and _is_isinstance(v) and _is_isinstance(vals[-1]) and _same(v.args[0], vals[-1].args[0]):
+                    prev = vals[-1]
+                    elts = _type_elts(prev.args[1]) + _type_elts(v.args[1])
+                    vals[-1] = ast.copy_location(ast.Call(func=prev.func, args=[prev.args[0], ast.copy_location(ast.Tuple(elts=elts, ctx=ast.Load()), prev)], keywords=[]), prev)
+                else:
+                    vals.append(v)
+            if len(vals) == 1:
+                return vals[0]
+            if len(vals) != len(node.values):
+                return ast.copy_location(ast.BoolOp(op=node.op, values=vals), node)
         return node
 
     def visit_Subscript(self, node):
@@ -432,6 +633,35 @@ def _stmts(body, enclosing_rest=()):
                 h2.body = _stmts(h.body)
                 hs.append(h2)
             s.handlers = hs
+        # N16: assignment expressions in a test / simple statement -> assignment statements in front of it
+        if isinstance(s, (ast.If, ast.Assign, ast.AugAssign, ast.AnnAssign, ast.Return, ast.Expr)):
+            host = s.test if isinstance(s, ast.If) else getattr(s, "value", None)
+            if host is not None and any(isinstance(x, ast.NamedExpr) for x in ast.walk(host)):
+                pre = []
+
+                class _W(ast.NodeTransformer):
+                    def visit_Lambda(self, n):
+                        return n
+
+                    def visit_NamedExpr(self, n):
+                        v = self.visit(n.value)
+                        a = ast.Assign(targets=[ast.Name(id=n.target.id, ctx=ast.Store())], value=v)
+                        ast.copy_location(a, s)
+                        ast.copy_location(a.targets[0], n)
+                        pre.append(a)
+                        return ast.copy_location(ast.Name(id=n.target.id, ctx=ast.Load()), n)
+                new_host = _W().visit(copy.deepcopy(host))
+                s = copy.copy(s)
+                if isinstance(s, ast.If):
+                    s.test = new_host
+                else:
+                    s.value = new_host
+                out.extend(pre)
+        # N15: while-loops that spell a for-loop
+        if isinstance(s, ast.While) and not s.orelse:
+            conv = _while_to_for(s, out, body[i + 1:])
+            if conv is not None:
+                s = conv
         # N7b: loop over a generator expression
         if isinstance(s, ast.For) and isinstance(s.iter, ast.GeneratorExp) and len(s.iter.generators) == 1 and not s.iter.generators[0].is_async and not s.orelse:
             g = s.iter.generators[0]
@@ -470,6 +700,98 @@ def _stmts(body, enclosing_rest=()):
         out.append(s)
         i += 1
     return out
+
+
+def _names(nodes):
+    out = set()
+    for n in nodes:
+        for x in ast.walk(n):
+            if isinstance(x, ast.Name):
+                out.add(x.id)
+    return out
+
+
+def _find_binding(out, name, pred):
+    """index in `out` (statements already emitted in this block) of the last `name = <value satisfying pred>`"""
+    for j in range(len(out) - 1, -1, -1):
+        st = out[j]
+        if isinstance(st, ast.Assign) and len(st.targets) == 1 and isinstance(st.targets[0], ast.Name) and st.targets[0].id == name:
+            return j if pred(st.value) else None
+        if name in _names([st]):
+            return None
+    return None
+
+
+def _is_call(e, fname, nargs):
+    return isinstance(e, ast.Call) and isinstance(e.func, ast.Name) and e.func.id == fname and len(e.args) in nargs and not e.keywords
+
+
+def _while_to_for(s, out, rest):
+    """N15: the three while spellings of `for v in X: BODY` (explicit iterator with try/next, sentinel with walrus, index loop)"""
+    t = s.test
+    # (a) while True: try: v = next(it) except StopIteration: break; BODY
+    if isinstance(t, ast.Constant) and t.value is True and s.body and isinstance(s.body[0], ast.Try):
+        tr = s.body[0]
+        if len(tr.body) == 1 and isinstance(tr.body[0], ast.Assign) and len(tr.body[0].targets) == 1 and _is_call(tr.body[0].value, "next", (1,)) \
+                and isinstance(tr.body[0].value.args[0], ast.Name) and len(tr.handlers) == 1 and not tr.orelse and not tr.finalbody \
+                and isinstance(tr.handlers[0].type, ast.Name) and tr.handlers[0].type.id == "StopIteration" \
+                and len(tr.handlers[0].body) == 1 and isinstance(tr.handlers[0].body[0], ast.Break):
+            it = tr.body[0].value.args[0].id
+            j = _find_binding(out, it, lambda v: _is_call(v, "iter", (1,)))
+            if j is not None and it not in _names(s.body[1:]) and it not in _names(rest):
+                src_iter = out[j].value.args[0]
+                del out[j]
+                return ast.copy_location(ast.For(target=_store(tr.body[0].targets[0]), iter=src_iter, body=list(s.body[1:]) or [ast.copy_location(ast.Pass(), s)], orelse=[], type_comment=None), s)
+    # (b) while (v := next(it, END)) is not END: BODY
+    if isinstance(t, ast.Compare) and len(t.ops) == 1 and isinstance(t.ops[0], ast.IsNot) and isinstance(t.left, ast.NamedExpr) \
+            and _is_call(t.left.value, "next", (2,)) and isinstance(t.left.value.args[0], ast.Name) and isinstance(t.left.value.args[1], ast.Name) \
+            and isinstance(t.comparators[0], ast.Name) and t.comparators[0].id == t.left.value.args[1].id:
+        it, end = t.left.value.args[0].id, t.comparators[0].id
+        j = _find_binding(out, it, lambda v: _is_call(v, "iter", (1,)))
+        if j is not None and it not in _names(s.body) and it not in _names(rest) and end not in _names(s.body):
+            src_iter = out[j].value.args[0]
+            del out[j]
+            k = _find_binding(out, end, lambda v: _is_call(v, "object", (0,)))
+            if k is not None and end not in _names(rest):
+                del out[k]
+            return ast.copy_location(ast.For(target=_store(t.left.target), iter=src_iter, body=list(s.body), orelse=[], type_comment=None), s)
+    # (c) i = 0; while i < len(S): ... S[i] ...; i += 1
+    if isinstance(t, ast.Compare) and len(t.ops) == 1 and isinstance(t.ops[0], ast.Lt) and isinstance(t.left, ast.Name) and _is_call(t.comparators[0], "len", (1,)) \
+            and isinstance(t.comparators[0].args[0], ast.Name) and len(s.body) >= 2:
+        i, S = t.left.id, t.comparators[0].args[0].id
+        last = s.body[-1]
+        inc = isinstance(last, ast.AugAssign) and isinstance(last.op, ast.Add) and isinstance(last.target, ast.Name) and last.target.id == i \
+            and isinstance(last.value, ast.Constant) and last.value.value == 1
+        j = _find_binding(out, i, lambda v: isinstance(v, ast.Constant) and v.value == 0 and not isinstance(v.value, bool))
+        inner = s.body[:-1]
+        if inc and j is not None and i not in _names(rest) and not any(isinstance(x, (ast.Continue,)) for b in inner for x in ast.walk(b)):
+            # every use of i in the body is the subscript S[i] (load); S and i are not stored in the body
+            ok = True
+            uses = 0
+            for b in inner:
+                for x in ast.walk(b):
+                    if isinstance(x, ast.Name) and x.id in (i, S) and isinstance(x.ctx, (ast.Store, ast.Del)):
+                        ok = False
+            class _Sub(ast.NodeTransformer):
+                def visit_Subscript(self, n):
+                    nonlocal uses
+                    if isinstance(n.value, ast.Name) and n.value.id == S and isinstance(n.slice, ast.Name) and n.slice.id == i and isinstance(n.ctx, ast.Load):
+                        uses += 1
+                        return ast.copy_location(ast.Name(id=elem, ctx=ast.Load()), n)
+                    return self.generic_visit(n)
+            first = inner[0]
+            if isinstance(first, ast.Assign) and len(first.targets) == 1 and isinstance(first.targets[0], ast.Name) and isinstance(first.value, ast.Subscript) \
+                    and isinstance(first.value.value, ast.Name) and first.value.value.id == S and isinstance(first.value.slice, ast.Name) and first.value.slice.id == i:
+                elem = first.targets[0].id
+                inner2 = inner[1:]
+            else:
+                elem = "_elem_" + i
+                inner2 = inner
+            new_body = [_Sub().visit(copy.deepcopy(b)) for b in inner2]
+            if ok and i not in _names(new_body):
+                del out[j]
+                return ast.copy_location(ast.For(target=ast.Name(id=elem, ctx=ast.Store()), iter=ast.Name(id=S, ctx=ast.Load()), body=new_body or [ast.copy_location(ast.Pass(), s)], orelse=[], type_comment=None), s)
+    return None
 
 
 def _store(t):
@@ -600,13 +922,88 @@ class _Bodies(ast.NodeTransformer):
 
 
 def normalize_module(mod, tree, pinned_funcs, pinned_globals):
+    from .pinned import PINNED_CLASS_ATTRS
     consts = module_constants(tree, pinned_globals)
     helpers = simple_helpers(tree, mod, pinned_funcs)
-    inl = _Inline(consts, helpers)
+    cls_consts = class_constants(tree, PINNED_CLASS_ATTRS)
+    inl = _Inline(consts, helpers, cls_consts)
     tree = inl.visit(tree)
     tree = _LocalDicts().visit(tree)
-    tree = _Canon().visit(tree)
+    canon = _Canon()
+    canon.operator_aliases = frozenset(_import_aliases(tree, "operator"))
+    canon.partial_names = frozenset({a + ".partial" for a in _import_aliases(tree, "functools")} | _from_import_aliases(tree, "functools", "partial"))
+    tree = canon.visit(tree)
     tree = _Bodies().visit(tree)
-    tree = _Canon().visit(tree)
+    tree = canon.visit(tree)
     ast.fix_missing_locations(tree)
-    return tree, {"constants_inlined": sorted(consts), "helper_refs": sorted(helpers), "uses_rewritten": inl.n}
+    return tree, {"constants_inlined": sorted(consts) + sorted("%s.%s" % (c, a) for c, d in cls_consts.items() for a in d), "helper_refs": sorted(helpers), "uses_rewritten": inl.n}
+
+
+# --------------------------------------------------------------------------- N0: undo renames of private functions
+
+def _params(node):
+    a = node.args
+    return tuple(x.arg for x in a.posonlyargs + a.args + a.kwonlyargs) + ((("*" + a.vararg.arg),) if a.vararg else ()) + ((("**" + a.kwarg.arg),) if a.kwarg else ())
+
+
+def _body_digest(node):
+    import hashlib
+    body = [s for s in node.body if not (isinstance(s, ast.Expr) and isinstance(s.value, ast.Constant))]
+    return hashlib.sha1("\n".join(ast.dump(s) for s in body).encode()).hexdigest()[:16]
+
+
+def undo_private_renames(trees, pinned_funcs, pinned_params, pinned_body):
+    """N0: a private function/method of the pinned tree that is gone while a new function with the same body, or the only new function
+    with the same parameter list, exists in the same class/module, was renamed: the new name is mapped back everywhere in the package.
+    trees: {module: ast.Module} (modified in place).  Returns {new name: pinned qualname}."""
+    inv = {}
+    for m, tree in trees.items():
+        for st in tree.body:
+            if isinstance(st, (ast.FunctionDef, ast.AsyncFunctionDef)):
+                inv["%s.%s" % (m, st.name)] = (m, None, st)
+            elif isinstance(st, ast.ClassDef):
+                for s2 in st.body:
+                    if isinstance(s2, (ast.FunctionDef, ast.AsyncFunctionDef)):
+                        inv["%s.%s.%s" % (m, st.name, s2.name)] = (m, st.name, s2)
+    missing = [q for q in pinned_params if q not in inv]
+    new = {q: v for q, v in inv.items() if q not in pinned_funcs}
+    if not missing or not new:
+        return {}
+    ren = {}
+    taken = set()
+    for q in missing:
+        scope = q.rsplit(".", 1)[0]
+        cands = [nq for nq, (m, c, node) in new.items() if nq.rsplit(".", 1)[0] == scope and nq not in taken]
+        pick = [nq for nq in cands if _body_digest(new[nq][2]) == pinned_body.get(q)]
+        if len(pick) != 1:
+            same = [nq for nq in cands if _params(new[nq][2]) == tuple(pinned_params[q])]
+            rivals = [q2 for q2 in missing if q2 != q and q2.rsplit(".", 1)[0] == scope and tuple(pinned_params[q2]) == tuple(pinned_params[q])]
+            pick = same if (len(same) == 1 and not rivals) else []
+        if len(pick) == 1:
+            taken.add(pick[0])
+            ren[pick[0].rsplit(".", 1)[1]] = q
+    if not ren:
+        return {}
+    # names must be unambiguous in the package: no other definition of the new name
+    back = {new_name: q.rsplit(".", 1)[1] for new_name, q in ren.items()}
+
+    class _R(ast.NodeTransformer):
+        def visit_FunctionDef(self, node):
+            self.generic_visit(node)
+            if node.name in back:
+                node.name = back[node.name]
+            return node
+
+        def visit_Attribute(self, node):
+            self.generic_visit(node)
+            if node.attr in back:
+                node.attr = back[node.attr]
+            return node
+
+        def visit_Name(self, node):
+            if node.id in back and ren[node.id].count(".") == 1:      # module-level function
+                node.id = back[node.id]
+            return node
+    for m in trees:
+        trees[m] = _R().visit(trees[m])
+    return ren
